@@ -231,6 +231,16 @@ static void history_case(Tape& t, Ctx& c)
       auto nb = w.o[si]->share_convert(); w.drop(di); w.o[di] = std::move(nb); w.m.s[di] = src; break; }
     case O_XCONV: { // DV64<->DV32, CSR64<->CSR32: copies into new arrays of the other types
       int tk = -1; switch(src.kind) { case K_DV64: tk = K_DV32; break; case K_DV32: tk = K_DV64; break; case K_CSR64: tk = K_CSR32; break; case K_CSR32: tk = K_CSR64; break; default: break; }
+      if(tk < 0 && (src.kind == K_BCSR22 || src.kind == K_CSCR || src.kind == K_BAND))
+      {
+        // format-changing conversion into CSR<double,u64>: all arrays of the result are new; their recorded sizes must be the
+        // sizes of their allocations (the pool accounting below compares them), their contents are taken from the object
+        // (what the converted matrix holds is C02's subject)
+        if(di == si) di = (si + 1) % 8; opn = "convert:to-csr"; h.set("op", opn); h.set("src", si); h.set("dst", di); h.set("from", kname[src.kind]); w.note(h, opn);
+        auto* q = new OCSR64();
+        if(src.kind == K_BCSR22) q->c.convert(static_cast<OBCSR&>(*w.o[si]).c); else if(src.kind == K_CSCR) q->c.convert(static_cast<OCSCR&>(*w.o[si]).c); else q->c.convert(static_cast<OBAND&>(*w.o[si]).c);
+        w.drop(di); w.o[di].reset(q); w.adopt(di); break;
+      }
       if(tk < 0) { --st; continue; }
       if(di == si) di = (si + 1) % 8; h.set("op", opn); h.set("src", si); h.set("dst", di); h.set("to", kname[tk]); w.note(h, opn);
       std::unique_ptr<Obj> nb;
